@@ -225,4 +225,14 @@ def rule_qt_override(ctx):
     c11.rule_qt_restore(ctx)
 
 
-RULES = [rule_name_value, rule_single_path, rule_apply, rule_qt_override]
+def rule_force_only_when_fusing(ctx):
+    from .common_fusion import fusion_table
+    r = ctx.rule("force-only-when-fusing", "converse of C02.fusion-table: for every language and every ordered pair of its punctuators that, written "
+                 "without a blank, still lexes as the same two tokens, space_text()'s safety block cannot set PCF_FORCE_SPACE (folded over the "
+                 "punctuator table, helpers of space_text() evaluated with the same bindings): a configured remove is overridden only where the "
+                 "property allows it")
+    fusion_table(ctx, r, converse=True)
+    r.floor(1)
+
+
+RULES = [rule_name_value, rule_single_path, rule_apply, rule_qt_override, rule_force_only_when_fusing]
